@@ -6,7 +6,7 @@
     [iso g h] = some map injective on the nodes of g relabels g into h up to [geq]. *)
 From Coq Require Import List NArith ZArith Bool Arith Permutation.
 From SK Require Import lib.IRSortKeys lib.IRCore lib.IRSearch model.C18_Model proof.C18_Order proof.C18_Spec
-  proof.C18_Graph proof.C18_Canon proof.C18_Equiv proof.C18_Label proof.C18_Aut proof.C18_Invariant proof.C18_Wf proof.C18_Count proof.C18_View proof.C18_Vf2 proof.C18_Vf2Count proof.C18_Refine proof.C18_NetBip proof.C18_Net proof.C18_NetSp proof.C18_Orbits proof.C18_OrbSound proof.C18_OrbCanon proof.C18_Examples.
+  proof.C18_Graph proof.C18_Canon proof.C18_Equiv proof.C18_Label proof.C18_Aut proof.C18_Invariant proof.C18_Wf proof.C18_Count proof.C18_View proof.C18_Vf2 proof.C18_Vf2Count proof.C18_Refine proof.C18_NetBip proof.C18_Net proof.C18_NetSp proof.C18_Orbits proof.C18_OrbSound proof.C18_OrbComplete proof.C18_OrbCanon proof.C18_Examples.
 From SK Require Import lib.C18_IRValid.
 From SK Require lib.IRInst.
 Import ListNotations.
@@ -112,24 +112,14 @@ Theorem C18_aut_count : forall (g : vgraph) (lab p : list N),
 Proof. exact aut_count. Qed.
 Print Assumptions C18_aut_count.
 
-(** Clause 4, orbits of the CANONICALISER -- PARTIAL.  Full statement wanted:
-      forall u v in node_ids g,  (exists s, is_aut g s /\ s u = v)  <->  u and v lie in a common set of
-      orbits_from_perms (min_leaves g).
-    Proved: (a) C18_orbits_partial: the relation "exchangeable by a structure-preserving self-map" is exactly the relation
-    read off the minimal leaves position-wise; (b) C18_orbits_sound_partial: the slot-based union-find of
-    _orbits_from_perms (with its orbit_map / emptied-slot bookkeeping and the duplicated prefix positions) only ever joins
-    exchangeable nodes and reports every node.  Missing: the converse of (b) -- two exchangeable nodes always end in a
-    common reported set: a merged-away slot is empty, so a later merge through that position is a no-op and the pair is
-    recorded only through other positions / leaves; the argument needs that the leaf list is closed under composition
-    (it is the image of a group, C18_aut_count).  That half is tested on every case (oracle: brute-force orbits;
-    correspondence: orbit sets; side experiment: 25 000 random permutation groups with random prefixes and leaf orders,
-    0 failures).  The orbits of CRNAutomorphism are proved in full (C18_vf2_orbits). *)
-Theorem C18_orbits_partial : forall (g : vgraph) (lab p : list N) (u v : N),
+(** Exchangeable nodes, read off the minimal leaves: u can be mapped to v by a structure-preserving self-map iff some
+    minimal leaf carries v at a position where the best permutation carries u. *)
+Theorem C18_orbit_relation : forall (g : vgraph) (lab p : list N) (u v : N),
   wf g -> kinds_ok g -> arcs_ok g -> fst (canon_search g) = Some (lab, p) -> In u (node_ids g) ->
   ((exists s, is_aut g s /\ s u = v) <->
    (exists q i, In q (min_leaves g) /\ i < length p /\ nth i p 0%N = u /\ nth i q 0%N = v)).
 Proof. exact orbit_pairs. Qed.
-Print Assumptions C18_orbits_partial.
+Print Assumptions C18_orbit_relation.
 
 (** Every network gives views inside the domain of the theorems: both views of a network whose coefficients are
     positive and whose reactions only mention listed species (what CRNHyperGraph guarantees) are well-formed graphs with
@@ -214,9 +204,23 @@ Theorem C18_vf2_orbits : forall g : vgraph, wf g ->
 Proof. exact vf2_orbits. Qed.
 Print Assumptions C18_vf2_orbits.
 
-Theorem C18_orbits_sound_partial : forall (g : vgraph) (lab p : list N),
+(** Clause 4, orbits of the canonicaliser, in full: two nodes lie in a common set of the reported orbits
+    (orbits_from_perms = the slot-based union-find of _orbits_from_perms with its orbit_map, emptied slots and the
+    duplicated prefix positions, applied to the minimal leaves) exactly when some structure-preserving self-map sends one
+    to the other.  Sound half: a slot only ever joins its home element's class with the class of an image of that element;
+    complete half: a slot that survives contains the image of its home element under EVERY leaf, and the leaves are the
+    images of the best permutation under all self-maps (C18_aut_count).  (The reported list can contain the same set
+    twice -- a prefix slot and its tail twin may both survive; as a set of classes it is the orbit partition.) *)
+Theorem C18_orbits : forall (g : vgraph) (lab p : list N),
   wf g -> kinds_ok g -> arcs_ok g -> fst (canon_search g) = Some (lab, p) ->
-  (forall c, In c (orbits_from_perms (min_leaves g)) -> forall x y, In x c -> In y c -> exists s, is_aut g s /\ s x = y) /\
-  (forall v, In v (node_ids g) -> exists c, In c (orbits_from_perms (min_leaves g)) /\ In v c).
-Proof. exact canon_orbits_sound. Qed.
-Print Assumptions C18_orbits_sound_partial.
+  forall u v, In u (node_ids g) ->
+    ((exists c, In c (orbits_from_perms (min_leaves g)) /\ In u c /\ In v c) <-> (exists s, is_aut g s /\ s u = v)).
+Proof. exact canon_orbits. Qed.
+Print Assumptions C18_orbits.
+
+(** every node is reported in some orbit set *)
+Theorem C18_orbits_cover : forall (g : vgraph) (lab p : list N),
+  wf g -> kinds_ok g -> arcs_ok g -> fst (canon_search g) = Some (lab, p) ->
+  forall v, In v (node_ids g) -> exists c, In c (orbits_from_perms (min_leaves g)) /\ In v c.
+Proof. exact canon_orbits_cover. Qed.
+Print Assumptions C18_orbits_cover.
